@@ -13,6 +13,7 @@ from checks import c01, c02
 
 ID = "C07"
 LEVEL = "exploration"
+FP_MODE_MATTERS = True  # values travel through compiled code: see vlib/main.py run_case_guarded
 SHRINK_BUDGET = 30
 RULE = (
     "case = generated type expression x value x placement (as C02). Part 1 (in-process, library build path): for "
